@@ -1,4 +1,5 @@
 import PenneModel.Props.C09
+import PenneModel.Lex.Quote
 /-
   C19 — the token fuzzer emits only valid lexemes.  Property theorems (partial).
 
@@ -121,5 +122,289 @@ theorem fuzz_bin_suffixed (ln col off n : Nat) (hlt : n < 2 ^ 128) (sfx tail : L
     (by rw [hv]; exact hlt)
   rw [hv] at this
   exact ⟨_, this⟩
+
+/-! ### Composition: whole outputs
+
+`Lex/Safe.lean` models how `fill_to_capacity_with_tokens` assembles its output (`emit`: blanks, the extra space of
+`add_space_if_necessary`, the piece; a line may end in a `//` comment) and proves that every line it can assemble lexes
+without error tokens, whatever is drawn and however symbols end up glued (`emit_safe2`, `safe_noErr`).  Below: every piece
+the fuzzer can draw is a `PieceOK` piece — for every payload — and the theorem for whole outputs. -/
+
+theorem keywords_notErr : keywords.all (fun p => !p.2.isErr) = true := by decide +kernel
+
+theorem lookupKw_notErr (s : List Char) (t : Tok) (h : lookupKw s = some t) : t.isErr = false := by
+  unfold lookupKw at h
+  cases hf : keywords.find? (fun p => p.1 == s) with
+  | none => rw [hf] at h; cases h
+  | some p =>
+    rw [hf] at h
+    simp only [Option.map_some, Option.some.injEq] at h
+    have := List.all_eq_true.1 keywords_notErr p (List.mem_of_find?_eq_some hf)
+    rw [h] at this
+    simpa using this
+
+/-- anything shaped like an identifier is a word: an identifier, a keyword, a type name, `true`/`false`, `_` — or, followed
+    by `!`, a builtin -/
+theorem wordLex_ident (x : Char) (xs : List Char) (hx : isIdentStart x = true) (hxs : ∀ c ∈ xs, isIdentCont c = true) :
+    WordLex (x :: xs) := by
+  intro tail ht
+  obtain ⟨h1, h2, h3⟩ := identStart_facts x hx
+  have hs := spanIdent_append xs tail hxs ht
+  cases hk : lookupKw (x :: xs) with
+  | some t =>
+    left
+    intro ln col off
+    refine ⟨{ tok := t, start := off, stop := off + (x :: xs).length, line := ln, col := col }, lookupKw_notErr _ t hk, ?_⟩
+    simp only [List.cons_append]
+    unfold lexStep
+    simp only [h1, h2, h3, hx, hs, hk, Bool.false_eq_true, if_false, if_true, Bool.false_and]
+  | none =>
+    by_cases hb : ∃ tail', tail = '!' :: tail'
+    · obtain ⟨tail', rfl⟩ := hb
+      right
+      refine ⟨tail', rfl, ?_⟩
+      intro ln col off
+      refine ⟨{ tok := .builtin (x :: xs), start := off, stop := off + ((x :: xs).length + 1), line := ln, col := col }, rfl, ?_⟩
+      simp only [List.cons_append]
+      unfold lexStep
+      simp only [h1, h2, h3, hx, hs, hk, Bool.false_eq_true, if_false, if_true, Bool.false_and]
+    · left
+      intro ln col off
+      refine ⟨{ tok := .ident (x :: xs), start := off, stop := off + (x :: xs).length, line := ln, col := col }, rfl, ?_⟩
+      have hb' : ∀ rest, tail ≠ '!' :: rest := fun rest he => hb ⟨rest, he⟩
+      simp only [List.cons_append]
+      unfold lexStep
+      simp only [h1, h2, h3, hx, hs, hk, Bool.false_eq_true, if_false, if_true, Bool.false_and]
+
+theorem wordLex_of_step (w : List Char)
+    (h : ∀ tail, Stops tail → ∀ ln col off, ∃ t : LTok, t.tok.isErr = false ∧ lexStep ln col off (w ++ tail) = some ([t], tail)) :
+    WordLex w := fun tail ht => Or.inl (h tail ht)
+
+theorem pieceOK_word (bl w : List Char) (hbl : ∀ c ∈ bl, isBlank c = true) (hw : WordLex w) (hne : w ≠ [])
+    (hall : ∀ c ∈ w, isIdentCont c = true) : PieceOK ⟨bl, w, true⟩ := by
+  cases hw' : w with
+  | nil => exact absurd hw' hne
+  | cons x xs =>
+    rw [← hw']
+    refine PieceOK.word bl w x xs hbl hw hw' (hall x (by rw [hw']; exact List.mem_cons_self)) ?_
+    intro c hc
+    exact hall c (List.mem_of_getLast? hc)
+
+/-- `Identifier`, `ValueTypeKeyword`, `BoolLiteral`, and every keyword or `_` of the default arm -/
+theorem piece_identifier (bl : List Char) (x : Char) (xs : List Char) (hbl : ∀ c ∈ bl, isBlank c = true)
+    (hx : isIdentStart x = true) (hxs : ∀ c ∈ xs, isIdentCont c = true) : PieceOK ⟨bl, x :: xs, true⟩ := by
+  refine pieceOK_word bl _ hbl (wordLex_ident x xs hx hxs) (by simp) ?_
+  intro c hc
+  simp only [List.mem_cons] at hc
+  rcases hc with rfl | hc
+  · unfold isIdentCont; simp [hx]
+  · exact hxs c hc
+
+/-- `Builtin` -/
+theorem piece_builtin (bl : List Char) (x : Char) (xs : List Char) (hbl : ∀ c ∈ bl, isBlank c = true)
+    (hx : isIdentStart x = true) (hxs : ∀ c ∈ xs, isIdentCont c = true) (hk : lookupKw (x :: xs) = none) :
+    PieceOK ⟨bl, x :: xs ++ ['!'], true⟩ := by
+  refine PieceOK.closed bl _ x (xs ++ ['!']) true hbl ?_ rfl (identStart_facts x hx).2.2 (by intro h; cases h)
+  intro tail ln col off
+  have := (lexemeP_builtin x xs hx hxs hk).2 ln col off tail trivial
+  exact ⟨_, rfl, this⟩
+
+theorem digits_identCont (b : Nat) (hb : 1 < b) (hb16 : b ≤ 16) (n : Nat) : ∀ c ∈ Nat.toDigits b n, isIdentCont c = true := by
+  intro c hc
+  exact isHex_identCont c (toDigits_class b hb isHex (fun d hd => isHex_digitChar d (by omega)) n c hc)
+
+/-- `NakedDecimal`: `value.to_string()` for every u128 -/
+theorem piece_decimal (bl : List Char) (n : Nat) (hbl : ∀ c ∈ bl, isBlank c = true) (hlt : n < 2 ^ 128) :
+    PieceOK ⟨bl, Nat.toDigits 10 n, true⟩ :=
+  pieceOK_word bl _ hbl (wordLex_of_step _ (fun tail ht ln col off => ⟨_, rfl, fuzz_decimal ln col off n hlt tail ht⟩))
+    Nat.toDigits_ne_nil (digits_identCont 10 (by decide) (by decide) n)
+
+/-- `BitInteger`: `0x{value:x}`, `0x{value:X}`, `0b{value:b}` -/
+theorem piece_hex_lower (bl : List Char) (n : Nat) (hbl : ∀ c ∈ bl, isBlank c = true) (hlt : n < 2 ^ 128) :
+    PieceOK ⟨bl, '0' :: 'x' :: Nat.toDigits 16 n, true⟩ := by
+  refine pieceOK_word bl _ hbl (wordLex_of_step _ (fun tail ht ln col off => ⟨_, rfl, hex_roundtrip ln col off n hlt tail ht⟩)) (by simp) ?_
+  intro c hc
+  simp only [List.mem_cons] at hc
+  rcases hc with rfl | rfl | hc
+  · decide
+  · decide
+  · exact digits_identCont 16 (by decide) (by decide) n c hc
+
+theorem piece_hex_upper (bl : List Char) (n : Nat) (hbl : ∀ c ∈ bl, isBlank c = true) (hlt : n < 2 ^ 128) :
+    PieceOK ⟨bl, '0' :: 'x' :: (Nat.toDigits 16 n).map upperHex, true⟩ := by
+  refine pieceOK_word bl _ hbl (wordLex_of_step _ (fun tail ht ln col off => ⟨_, rfl, fuzz_hex_upper ln col off n hlt tail ht⟩)) (by simp) ?_
+  intro c hc
+  simp only [List.mem_cons] at hc
+  rcases hc with rfl | rfl | hc
+  · decide
+  · decide
+  · exact isHex_identCont c (upper_class n c hc)
+
+theorem piece_bin (bl : List Char) (n : Nat) (hbl : ∀ c ∈ bl, isBlank c = true) (hlt : n < 2 ^ 128) :
+    PieceOK ⟨bl, '0' :: 'b' :: Nat.toDigits 2 n, true⟩ := by
+  refine pieceOK_word bl _ hbl (wordLex_of_step _ (fun tail ht ln col off => ⟨_, rfl, bin_roundtrip ln col off n hlt tail ht⟩)) (by simp) ?_
+  intro c hc
+  simp only [List.mem_cons] at hc
+  rcases hc with rfl | rfl | hc
+  · decide
+  · decide
+  · exact digits_identCont 2 (by decide) (by decide) n c hc
+
+theorem suffix_identCont (sfx : List Char) (t : Ty) (hs : (sfx, t) ∈ suffixes) : ∀ c ∈ sfx, isIdentCont c = true :=
+  suffix_table_ident (sfx, t) hs
+
+theorem suffix_head_not_xb : ∀ p ∈ suffixes, p.1.head? ≠ some 'x' ∧ p.1.head? ≠ some 'b' := by decide
+
+/-- `0` with a suffix (`0u8`): the fuzzer draws the value 0 one time in five -/
+theorem fuzz_zero_suffixed (ln col off : Nat) (sfx tail : List Char) (t : Ty) (hs : (sfx, t) ∈ suffixes) (ht : Stops tail) :
+    lexStep ln col off ('0' :: (sfx ++ tail)) =
+      some ([{ tok := .suf 0 t, start := off, stop := off + (1 + sfx.length), line := ln, col := col }], tail) := by
+  have hsp := spanIdent_append sfx tail (suffix_identCont sfx t hs) ht
+  have hps := suffix_table_sound (sfx, t) hs
+  have hne := suffix_table_nonempty (sfx, t) hs
+  have hxb := suffix_head_not_xb (sfx, t) hs
+  simp only at hps hne hxb
+  have hz : lexNumberZero (sfx ++ tail) = (.suf 0 t, sfx.length) := by
+    cases hsf : sfx with
+    | nil => exact absurd hsf hne
+    | cons c cs =>
+      rw [hsf] at hsp hps hxb
+      have hcx : c ≠ 'x' := fun he => hxb.1 (by rw [he]; rfl)
+      have hcb : c ≠ 'b' := fun he => hxb.2 (by rw [he]; rfl)
+      simp only [List.cons_append] at hsp ⊢
+      unfold lexNumberZero
+      split
+      · next h => simp at h; exact absurd h.1 hcx
+      · next h => simp at h; exact absurd h.1 hcb
+      · simp [hsp, hps]
+  unfold lexStep
+  simp [hz, isSym1, isIdentStart, drop_len_append]
+
+theorem fuzz_hex_upper_suffixed (ln col off n : Nat) (hlt : n < 2 ^ 128) (sfx tail : List Char) (t : Ty)
+    (hs : (sfx, t) ∈ suffixes) (ht : Stops tail) :
+    ∃ stop, lexStep ln col off ('0' :: 'x' :: ((Nat.toDigits 16 n).map upperHex ++ (sfx ++ tail))) =
+      some ([{ tok := .suf n t, start := off, stop := stop, line := ln, col := col }], tail) := by
+  have hne : (Nat.toDigits 16 n).map upperHex ≠ [] := by simp [Nat.toDigits_ne_nil]
+  have := lexStep_hex_suffix ln col off _ _ sfx tail t (withSep_refl _) hne (upper_class n) hs ht (by rw [valueOf_upper]; exact hlt)
+  rw [valueOf_upper] at this
+  exact ⟨_, this⟩
+
+/-- `SuffixedInteger`: every value in decimal / `0x…` (either case) / `0b…`, with every one of the eleven suffixes -/
+theorem piece_decimal_suffixed (bl : List Char) (n : Nat) (sfx : List Char) (t : Ty) (hbl : ∀ c ∈ bl, isBlank c = true)
+    (hlt : n < 2 ^ 128) (hs : (sfx, t) ∈ suffixes) : PieceOK ⟨bl, Nat.toDigits 10 n ++ sfx, true⟩ := by
+  refine pieceOK_word bl _ hbl (wordLex_of_step _ ?_) (by simp [Nat.toDigits_ne_nil]) ?_
+  · intro tail ht ln col off
+    rw [List.append_assoc]
+    cases n with
+    | zero => exact ⟨_, rfl, by simpa using fuzz_zero_suffixed ln col off sfx tail t hs ht⟩
+    | succ k => exact ⟨_, rfl, fuzz_decimal_suffixed ln col off (k + 1) (by omega) hlt sfx tail t hs ht⟩
+  · intro c hc
+    rcases List.mem_append.1 hc with hc | hc
+    · exact digits_identCont 10 (by decide) (by decide) n c hc
+    · exact suffix_identCont sfx t hs c hc
+
+theorem piece_hex_lower_suffixed (bl : List Char) (n : Nat) (sfx : List Char) (t : Ty) (hbl : ∀ c ∈ bl, isBlank c = true)
+    (hlt : n < 2 ^ 128) (hs : (sfx, t) ∈ suffixes) : PieceOK ⟨bl, '0' :: 'x' :: (Nat.toDigits 16 n ++ sfx), true⟩ := by
+  refine pieceOK_word bl _ hbl (wordLex_of_step _ ?_) (by simp) ?_
+  · intro tail ht ln col off
+    obtain ⟨stop, h⟩ := fuzz_hex_suffixed ln col off n hlt sfx tail t hs ht
+    exact ⟨_, rfl, by simpa [List.append_assoc] using h⟩
+  · intro c hc
+    simp only [List.mem_cons, List.mem_append] at hc
+    rcases hc with rfl | rfl | hc | hc
+    · decide
+    · decide
+    · exact digits_identCont 16 (by decide) (by decide) n c hc
+    · exact suffix_identCont sfx t hs c hc
+
+theorem piece_hex_upper_suffixed (bl : List Char) (n : Nat) (sfx : List Char) (t : Ty) (hbl : ∀ c ∈ bl, isBlank c = true)
+    (hlt : n < 2 ^ 128) (hs : (sfx, t) ∈ suffixes) : PieceOK ⟨bl, '0' :: 'x' :: ((Nat.toDigits 16 n).map upperHex ++ sfx), true⟩ := by
+  refine pieceOK_word bl _ hbl (wordLex_of_step _ ?_) (by simp) ?_
+  · intro tail ht ln col off
+    obtain ⟨stop, h⟩ := fuzz_hex_upper_suffixed ln col off n hlt sfx tail t hs ht
+    exact ⟨_, rfl, by simpa [List.append_assoc] using h⟩
+  · intro c hc
+    simp only [List.mem_cons, List.mem_append] at hc
+    rcases hc with rfl | rfl | hc | hc
+    · decide
+    · decide
+    · exact isHex_identCont c (upper_class n c hc)
+    · exact suffix_identCont sfx t hs c hc
+
+theorem piece_bin_suffixed (bl : List Char) (n : Nat) (sfx : List Char) (t : Ty) (hbl : ∀ c ∈ bl, isBlank c = true)
+    (hlt : n < 2 ^ 128) (hs : (sfx, t) ∈ suffixes) : PieceOK ⟨bl, '0' :: 'b' :: (Nat.toDigits 2 n ++ sfx), true⟩ := by
+  refine pieceOK_word bl _ hbl (wordLex_of_step _ ?_) (by simp) ?_
+  · intro tail ht ln col off
+    obtain ⟨stop, h⟩ := fuzz_bin_suffixed ln col off n hlt sfx tail t hs ht
+    exact ⟨_, rfl, by simpa [List.append_assoc] using h⟩
+  · intro c hc
+    simp only [List.mem_cons, List.mem_append] at hc
+    rcases hc with rfl | rfl | hc | hc
+    · decide
+    · decide
+    · exact digits_identCont 2 (by decide) (by decide) n c hc
+    · exact suffix_identCont sfx t hs c hc
+
+/-- punctuation of the default arm, `{` and `}` -/
+theorem piece_symbol (bl s : List Char) (x : Char) (xs : List Char) (hbl : ∀ c ∈ bl, isBlank c = true) (hs : s = x :: xs)
+    (hall : ∀ c ∈ s, isSym1 c = true) : PieceOK ⟨bl, s, false⟩ :=
+  PieceOK.sym bl s x xs hbl hs hall
+
+/-- `StringLiteral`: any run of printable characters, simple escapes, `\xHH`, `\u{…}` and raw non-ASCII characters -/
+theorem piece_string (bl : List Char) {sps : List Char} {bs : List Nat} {n : Nat} (hbl : ∀ c ∈ bl, isBlank c = true)
+    (h : QItems '"' sps bs n) : PieceOK ⟨bl, '"' :: (sps ++ ['"']), false⟩ :=
+  PieceOK.closed bl _ '"' (sps ++ ['"']) false hbl (closedLex_string h) rfl (by decide) (fun _ => by decide)
+
+/-- `CharLiteral`: one item standing for one byte -/
+theorem piece_char (bl : List Char) {sp : List Char} {b : Nat} (hbl : ∀ c ∈ bl, isBlank c = true) (h : QItem '\'' sp [b]) :
+    PieceOK ⟨bl, '\'' :: (sp ++ ['\'']), false⟩ :=
+  PieceOK.closed bl _ '\'' (sp ++ ['\'']) false hbl (closedLex_char h) rfl (by decide) (fun _ => by decide)
+
+/-- one line of fuzzer output, and whether it ends with `\r\n` -/
+structure FuzzLine where
+  pieces : List Piece
+  trailer : List Char
+  crlf : Bool
+
+def FuzzLine.toText (l : FuzzLine) : TextLine := { text := emit l.trailer none l.pieces, crlf := l.crlf }
+
+/-- **C19, composition**: text assembled from any pieces the fuzzer can draw (`PieceOK`), with its spacing rule, line by
+    line, with optional trailing comments, lexes without a single error token -/
+theorem fuzz_output_no_lexical_error (ls : List FuzzLine) (hne : ls ≠ [])
+    (hp : ∀ l ∈ ls, (∀ p ∈ l.pieces, PieceOK p) ∧ IsTrailer l.trailer ∧ l.toText.Plain) :
+    errFree (lex (textOf (ls.map FuzzLine.toText))) := by
+  apply lex_errFree
+  · intro h; exact hne (List.map_eq_nil_iff.1 h)
+  · intro t ht
+    simp only [List.mem_map] at ht
+    obtain ⟨l, hl, rfl⟩ := ht
+    exact (hp l hl).2.2
+  · intro t ht
+    simp only [List.mem_map] at ht
+    obtain ⟨l, hl, rfl⟩ := ht
+    exact (emit_safe2 l.trailer (hp l hl).2.1 l.pieces (hp l hl).1 none).1.1
+
+/-- the hypotheses are satisfiable by a line with glued symbols, escapes and a comment: `aB!=12 <<"a\n\x41"'\''//x` -/
+def sampleFuzzLine : FuzzLine :=
+  { crlf := false, trailer := "//x".toList, pieces := [
+      ⟨[], "aB".toList, true⟩, ⟨[], "!=".toList, false⟩, ⟨[], Nat.toDigits 10 12, true⟩, ⟨[' '], ['<'], false⟩, ⟨[], ['<'], false⟩,
+      ⟨[], '"' :: ("a\\n\\x41".toList ++ ['"']), false⟩, ⟨[], '\'' :: (['\\', '\''] ++ ['\'']), false⟩] }
+
+example : sampleFuzzLine.toText.text = "aB!=12 <<\"a\\n\\x41\"'\\''//x".toList := by decide +kernel
+
+example : (∀ p ∈ sampleFuzzLine.pieces, PieceOK p) ∧ IsTrailer sampleFuzzLine.trailer ∧ sampleFuzzLine.toText.Plain := by
+  refine ⟨?_, Or.inr ⟨['x'], by decide⟩, ⟨by decide +kernel, by decide +kernel⟩⟩
+  intro p hp
+  simp only [sampleFuzzLine, List.mem_cons, List.mem_nil_iff, or_false] at hp
+  rcases hp with rfl | rfl | rfl | rfl | rfl | rfl | rfl
+  · exact piece_identifier [] 'a' ['B'] (by decide) (by decide) (by decide)
+  · exact piece_symbol [] _ '!' ['='] (by decide) (by decide) (by decide)
+  · exact piece_decimal [] 12 (by decide) (by decide)
+  · exact piece_symbol [' '] _ '<' [] (by decide) rfl (by decide)
+  · exact piece_symbol [] _ '<' [] (by decide) rfl (by decide)
+  · have h : QItems '"' (['a'] ++ (['\\', 'n'] ++ (['\\', 'x', '4', '1'] ++ []))) ([('a').toNat] ++ ([10] ++ ([valueOf 16 ['4', '1']] ++ []))) 3 :=
+      .cons (.plain 'a' (by decide)) (.cons (.esc 'n' 10 (by decide)) (.cons (.hex2 '4' '1' (by decide) (by decide)) .nil))
+    exact piece_string [] (by decide) h
+  · exact piece_char [] (by decide) (QItem.esc '\'' 39 (by decide))
 
 end Lex
